@@ -133,6 +133,140 @@ def cls_c15(e):
     return out
 
 
+
+def _code(e):
+    return "ok" if e["res"].get("code") == 0 else "rej"
+
+
+def cls_c05(e):
+    out = []
+    a = e["a"]
+    if a in ("Tx:AssignKey", "Tx:OptIn") and "key" in e["args"] and "signer" not in e["args"]:
+        r = _cons(e, e["args"].get("c", ""))
+        out.append("%s_%s_%s" % (a[3:], _code(e), r.get("phase", "?")))
+    if a == "Tx:CreateValidator":
+        out.append("createval_%s_%s" % (_code(e), "extra" if e["args"]["key"].startswith("k") else "fresh"))
+    if e["chain"] == "p" and a == "Block":
+        n = sum(len(r.get("valKey", {})) for r in e["s"].get("cons", {}).values())
+        out.append("assigned_keys_%d" % min(n, 5))
+    return out
+
+
+def cls_c06(e):
+    out = []
+    if e["a"] == "PEndCIS":
+        n = sum(len(r.get("toPrune", [])) for r in e["s"].get("cons", {}).values())
+        out.append("prune_entries_%d" % min(n, 4))
+    if e["a"] in ("Tx:AssignKey",) and e["res"].get("code") == 0:
+        r = _cons(e, e["args"]["c"])
+        out.append("assign_on_%s" % r.get("phase"))
+    if e["a"] == "Tx:Recv" and e["chain"] == "p":
+        for pk in e["res"].get("recv", []):
+            if pk.get("type") == "slash":
+                out.append("slash_for_%s" % ("extra_key" if pk["key"].startswith("k") else "provider_key"))
+    return out
+
+
+def cls_c08(e):
+    out = []
+    if e["a"] == "Tx:Recv" and e["chain"] == "p" and e["res"].get("code") == 0:
+        for pk, ack in zip(e["res"].get("recv", []), e["res"].get("acks", [])):
+            if pk.get("type") == "slash":
+                out.append("slash_%s_%s" % (pk["inf"], ack))
+    if e["a"] == "PQueueVSC":
+        r = _cons(e, e["args"]["c"])
+        if r.get("pendingVSC") and r["pendingVSC"][-1].get("acks"):
+            out.append("vsc_carries_acks")
+    if e["chain"] != "p" and e["a"] == "Block":
+        if e["s"].get("outstanding"):
+            out.append("consumer_outstanding")
+        if any(p["type"] == "slash" for p in e["s"].get("pending", [])):
+            out.append("consumer_slash_pending")
+    if e["a"] == "Forge":
+        out.append("forged")
+    return out
+
+
+def cls_c09(e):
+    out = cls_c08(e)
+    if e["a"] == "PBeginCIS":
+        out.append("meter_%s" % ("neg" if e["s"].get("meter", 0) < 0 else "full" if e["s"].get("meter") == e["s"].get("allow") else "partial"))
+    if e["chain"] != "p" and e["a"] == "CEndSend":
+        sr = e["s"].get("slashRec", {})
+        out.append("send_%s" % ("norecord" if not sr.get("present") else "waiting" if sr["v"]["waiting"] else "bounced"))
+    return out
+
+
+def cls_c10(e):
+    out = []
+    a = e["a"]
+    if a in ("PLaunchOK", "PLaunchFail", "PRemoveOK", "PRemoveFail"):
+        out.append(a)
+    if a == "Tx:CreateConsumer":
+        out.append("create_%s_%s" % (_code(e), "spawn" if e["args"].get("init", {}).get("spawn") else "nospawn"))
+    if a == "Tx:UpdateConsumer" and e["res"].get("code") == 0:
+        r = _cons(e, e["args"]["c"])
+        out.append("update_%s_%s" % (r.get("phase"), "init" if "init" in e["args"] else "noinit"))
+    if a == "PLaunchDue" and e["s"].get("launchQ") is not None:
+        out.append("launchq_%d" % min(len(e["s"]["launchQ"]), 3))
+    return out
+
+
+def cls_c11(e):
+    out = []
+    a = e["a"]
+    if a in ("PRemoveOK", "PRemoveFail"):
+        out.append(a)
+    if a in ("Tx:RemoveConsumer", "Tx:Timeout") and e["res"].get("code") == 0:
+        out.append("stop_by_" + a[3:])
+    if a == "Block" and e["chain"] == "p":
+        st = [c for c, r in e["s"].get("cons", {}).items() if r["phase"] == "stopped"]
+        if st:
+            out.append("stopped_present")
+    return out
+
+
+def cls_c13(e):
+    out = []
+    if e["chain"] == "p" and (e["a"].startswith("Tx:") or e["a"] in ("PLaunchOK", "PLaunchFail", "PRemoveOK", "PQueueVSC", "PSendVSC")):
+        n = len(e["s"].get("cons", {}))
+        if n >= 2:
+            out.append("%s_with_%d_consumers" % (e["a"], min(n, 4)))
+    return out
+
+
+def cls_c14(e):
+    out = []
+    a = e["a"]
+    if a.startswith("Tx:") and e["chain"] == "p" and a[3:] in ("CreateConsumer", "UpdateConsumer", "RemoveConsumer", "OptIn", "OptOut", "AssignKey", "SetCommission", "UpdateParams", "ChangeRewardDenoms"):
+        who = "gov" if e["args"].get("gov") else "wrongsigner" if "signer" in e["args"] else "user"
+        out.append("%s_%s_%s" % (a[3:], who, _code(e)))
+    return out
+
+
+def cls_c19(e):
+    out = []
+    if e["a"] in ("PLaunchFail", "PRemoveFail", "PAllocateFail", "BlockError", "EnvHalt"):
+        out.append(e["a"])
+    if e["a"] == "Block":
+        out.append("block_%s" % ("p" if e["chain"] == "p" else "c"))
+    if e["a"].startswith("Tx:") and e["res"].get("code") not in (0, None):
+        out.append("failed_%s" % e["a"][3:])
+    return out
+
+
+def cls_c20(e):
+    out = []
+    if e["a"] == "Tx:UpdateConsumer" and e["res"].get("code") == 0 and "infr" in e["args"]:
+        r = _cons(e, e["args"]["c"])
+        out.append("infr_update_%s_%s" % (r.get("phase"), "pending" if r.get("infrQd", {}).get("present") else "nopending"))
+    if e["a"] == "PBeginInfraction":
+        out.append("infrq_%d" % min(len(e["s"].get("infrQ", [])), 3))
+    if e["a"] == "Tx:Recv" and e["chain"] == "p" and "handled" in e["res"].get("acks", []):
+        out.append("punish_step")
+    return out
+
+
 MC_VSCFLOW = [{"module": "MC_VSCFlow.tla", "cfg": "MC_VSCFlowA.cfg", "timeout": 600}]
 MC_ELIG = [{"module": "MC_Shaping.tla", "cfg": "MC_ShapingEligQ.cfg", "timeout": 900},
            {"module": "MC_Shaping.tla", "cfg": "MC_ShapingEligT.cfg", "timeout": 3000, "tier": "thorough"}]
@@ -188,6 +322,46 @@ PROPS = {
         "classify": cls_c15, "rule": "provider end-block steps classified by bonded-vs-M and ties; blocks by kind of engine update",
         "required_classes": {"quick": ["bonded_gt_M", "updates_change"]}, "assumptions": [],
     },
+    "C05": {"level": "model_checking", "mc": [], "corpora": [RANDOM], "invariants": ["C05_Injective"],
+            "properties": ["C05_Reject", "C05_Create"], "classify": cls_c05,
+            "rule": "key-assignment attempts (by outcome and consumer phase), validator creations (by outcome and kind of key) and blocks by number of assigned keys",
+            "required_classes": {"quick": ["AssignKey_ok_launched", "AssignKey_rej_launched", "createval_ok_fresh"]}, "assumptions": []},
+    "C06": {"level": "model_checking", "mc": [], "corpora": [RANDOM], "invariants": ["C06_Attributable", "C06_PruneListed"],
+            "properties": ["C06_Free", "C08_Outcome"], "classify": cls_c06,
+            "rule": "end-blocks by number of keys scheduled for pruning, assignments by phase, slash packets by kind of key",
+            "required_classes": {"quick": ["assign_on_launched", "prune_entries_1"]}, "assumptions": []},
+    "C08": {"level": "model_checking", "mc": [], "corpora": [RANDOM], "invariants": ["C08_Outstanding"],
+            "properties": ["C08_Outcome", "C08_Params", "C08_AckCarried", "C08_AckOnlyThere", "C08_FlagCleared"], "classify": cls_c08,
+            "rule": "slash packets received by the provider by (infraction, acknowledgement), VSC packets carrying slash acks, consumer blocks with outstanding flags / pending slash packets",
+            "required_classes": {"quick": ["slash_downtime_handled", "consumer_slash_pending"]}, "assumptions": []},
+    "C09": {"level": "model_checking", "mc": [], "corpora": [RANDOM], "invariants": ["C09_Window"],
+            "properties": ["C08_Outcome", "C09_MeterLeAllowance", "C09_OncePerPeriod", "C09_Standby", "C09_HeadStays", "C09_QueueFifo"], "classify": cls_c09,
+            "rule": "as C08 plus provider begin-blocks by meter state and consumer send steps by slash-record state",
+            "required_classes": {"quick": ["slash_downtime_handled", "meter_full", "send_waiting"]}, "assumptions": []},
+    "C10": {"level": "model_checking", "mc": [], "corpora": [RANDOM], "invariants": ["C10_InitIffSpawn", "C10_QueueExact"],
+            "properties": ["C10_Ids", "C10_PhaseStep", "C10_PhaseCause", "C10_LaunchWhenDue", "C10_LaunchOutcome", "C01_Launch"], "classify": cls_c10,
+            "rule": "lifecycle events: creations, updates by phase, launch attempts by outcome, removals",
+            "required_classes": {"quick": ["PLaunchOK", "PLaunchFail", "create_ok_spawn", "create_ok_nospawn", "update_initialized_init"]}, "assumptions": []},
+    "C11": {"level": "model_checking", "mc": [], "corpora": [RANDOM], "invariants": ["C11_DeletedStaysEmpty"],
+            "properties": ["C11_NoUpdates", "C11_Stops", "C11_RemoveWhenDue", "C11_Residue"], "classify": cls_c11,
+            "rule": "stops by cause, removals by outcome, blocks with stopped consumers present",
+            "required_classes": {"quick": ["PRemoveOK", "stopped_present"]}, "assumptions": []},
+    "C13": {"level": "model_checking", "mc": [], "corpora": [RANDOM], "invariants": [],
+            "properties": ["C13_Frame", "C13_FrameOthers"], "classify": cls_c13,
+            "rule": "per-consumer operations executed while at least one other consumer exists, by operation and number of consumers",
+            "required_classes": {"quick": ["PQueueVSC_with_2_consumers", "Tx:AssignKey_with_2_consumers"]}, "assumptions": []},
+    "C14": {"level": "model_checking", "mc": [], "corpora": [RANDOM], "invariants": ["C14_TopN"],
+            "properties": ["C14_Owner", "C14_Create", "C14_Authority", "C14_Validator", "C14_RejectedUnchanged"], "classify": cls_c14,
+            "rule": "provider messages by (type, kind of sender, outcome)",
+            "required_classes": {"quick": ["UpdateConsumer_user_rej", "UpdateConsumer_gov_ok", "OptIn_wrongsigner_rej", "UpdateParams_user_rej", "UpdateParams_gov_ok"]}, "assumptions": []},
+    "C19": {"level": "fault_enumeration", "mc": [], "corpora": [RANDOM], "invariants": ["C19_NoBlockError"],
+            "properties": ["C19_LaunchRollback", "C19_RemoveRollback", "C19_AllocateRollback"], "classify": cls_c19,
+            "rule": "blocks of every chain, failing consumer operations and failing transactions, by kind",
+            "required_classes": {"quick": ["PLaunchFail", "block_p", "block_c"]}, "assumptions": []},
+    "C20": {"level": "model_checking", "mc": [], "corpora": [RANDOM], "invariants": ["C20_OnePending"],
+            "properties": ["C20_Update", "C20_Apply", "C08_Params"], "classify": cls_c20,
+            "rule": "infraction-parameter requests by phase and pending state, begin-blocks by schedule length, punishment steps",
+            "required_classes": {"quick": ["infr_update_launched_nopending", "infr_update_registered_nopending"]}, "assumptions": []},
 }
 
 # ---- texts for MANIFEST.json -----------------------------------------------------------------------------------
@@ -206,4 +380,19 @@ MANIFEST_TEXT = {
     "C15": {"text": _TV + "MC_Shaping checks top-M selection with ties for all small inputs.",
             "note": "Staking arithmetic is observed environment; ties at the boundary are left open."},
 }
+_GEN = "TLC evaluates the property's formulas on every state/step recorded from the real provider and consumer applications under the seeded random driver (lifecycle, key, slashing, relay and governance operations, forged packets, timeouts, long time advances)"
+for _p, _t, _n in [
+    ("C05", "key-assignment acceptance rule, injectivity of the key maps and validator creation", "Injectivity is claimed for active consumers (registered/initialized/launched), as the creation rule in the statement does."),
+    ("C06", "attribution of replaced keys until first-stop + unbonding, pruning at the first end-block at/after the deadline", "Ghost records of replaced keys are built by the trace spec from observed assignments."),
+    ("C08", "outcome table of slash packets (ack, jailing iff, nobody else, slash-ack queue), acks carried by the next VSC packet, consumer outstanding flags", "Consumer-side invariants are not claimed for a consumer chain that forged packets in that trace; tokens of other validators may change through SDK redelegation slashing and are not compared."),
+    ("C09", "meter admission/deduction, meter <= allowance after begin-block, replenish period, window bound via ghosts, consumer standby/retry queue discipline", "The meter may also fall when the allowance shrinks (cap in BeginBlock)."),
+    ("C10", "id issuance, phase edges and their causes, queue exactness, due-launch order and limit, launch outcomes", "More than 200 due consumers are covered by the scripted scenario, not the random driver."),
+    ("C11", "no updates while stopped, removal time, due removal, residue after deletion", "A consumer stopped twice keeps a later removal-queue entry (prefix 52) that is consumed harmlessly; an expired client leaves the channel open (tolerated)."),
+    ("C13", "frame conditions on abstract records and raw per-consumer store digests", "Digests attribute shared time-queue entries per member; provider-wide validator state is excluded by definition."),
+    ("C14", "owner / authority / operator checks and rejected-unchanged", "Governance messages are executed as x/gov does (router, cache context); signatures are checked by the SDK ante handler on real signed transactions."),
+    ("C19", "no block error on any chain in any generated history; rollback of failed launches/removals/allocations", "A provider without any bonded validator is outside the environment's precondition."),
+    ("C20", "immediate vs queued parameter updates, one pending change, application when due, parameters used by punishments", "Fractions are compared as 18-decimal strings."),
+]:
+    MANIFEST_TEXT[_p] = {"text": _GEN + ": " + _t + ".", "note": _n}
+MANIFEST_TEXT["C19"]["technique"] = "TLC trace validation of every generated history (block errors, rollback frame conditions); fault enumeration via build-tagged failpoints"
 NOT_CLAIMED = {}
